@@ -40,18 +40,20 @@ func (c *Chunk) getRecord(i int) []string {
 // there are any errors writing data.
 func WriteCSV(ctx context.Context, iter *ChunkIterator, writer io.Writer) error {
 	var numFields int
+	var headerWritten bool
 	csvw := csv.NewWriter(writer)
 	for iter.Next() {
 		if ctx.Err() != nil {
 			return errors.New("operation aborted")
 		}
 		chunk := iter.Chunk()
-		if numFields == 0 {
+		if !headerWritten {
 			fieldNames := chunk.getFieldNames()
 			if err := csvw.Write(fieldNames); err != nil {
 				return errors.Wrap(err, "problem writing field names")
 			}
 			numFields = len(fieldNames)
+			headerWritten = true
 		} else if numFields != len(chunk.Metrics) {
 			return errors.New("unexpected schema change detected")
 		}
@@ -96,6 +98,8 @@ func DumpCSV(ctx context.Context, iter *ChunkIterator, prefix string) error {
 		numFields int
 		fileCount int
 		csvw      *csv.Writer
+
+		headerWritten bool
 	)
 	for iter.Next() {
 		if ctx.Err() != nil {
@@ -112,12 +116,13 @@ func DumpCSV(ctx context.Context, iter *ChunkIterator, prefix string) error {
 		}
 
 		chunk := iter.Chunk()
-		if numFields == 0 {
+		if !headerWritten {
 			fieldNames := chunk.getFieldNames()
 			if err = csvw.Write(fieldNames); err != nil {
 				return errors.Wrap(err, "problem writing field names")
 			}
 			numFields = len(fieldNames)
+			headerWritten = true
 		} else if numFields != len(chunk.Metrics) {
 			if err = writer.Close(); err != nil {
 				return errors.Wrap(err, "problem flushing and closing file")
